@@ -950,3 +950,34 @@ def _wit_def(eng, st, name, lst, arr):
     lid = _list_id(lst)
     eng.note_assumption(f"definition: the skolem witness function WIT_{name} of the returned list is the ghost array of witnesses (skolemised existential)")
     return z3.ForAll([r], z3.Implies(z3.And(0 <= r, r < to_z3(lst.length)), f(lid, r) == to_z3(arr.get(r))), patterns=[f(lid, r)])
+
+
+# ----------------------------------------------------------------------------- MVCAPA: re-evaluation under the named (closed-form) penalties
+@spec("AX_psc_ext")
+def _ax_psc_ext(eng, st, tok, alpha, bid1, bid2, p):
+    """Axiom (part of the definition of the assumed PSC): the penalised saving depends on the per-component penalties only through their values
+    BETA(bid, j), j < p. Premise (proved at each use): the two named sequences agree on [0, p)."""
+    j, s_, e_ = z3.Int(fresh_name("j")), z3.Int(fresh_name("s")), z3.Int(fresh_name("e"))
+    tokz, al, b1, b2, pz = to_z3(tok), to_z3(to_real(alpha)), to_z3(bid1), to_z3(bid2), to_z3(p)
+    prem = [z3.ForAll([j], z3.Implies(z3.And(0 <= j, j < pz), _BETA(b1, j) == _BETA(b2, j)), patterns=[_BETA(b1, j)])]
+    concl = z3.ForAll([s_, e_], _PSC(tokz, s_, e_, al, b1) == _PSC(tokz, s_, e_, al, b2), patterns=[_PSC(tokz, s_, e_, al, b1), _PSC(tokz, s_, e_, al, b2)])
+    eng.note_assumption("definition of the assumed PSC: it depends on the per-component penalties only through their values (axiom AX_psc_ext; premise proved per use)")
+    return LemmaInst("AX_psc_ext", prem, concl)
+
+
+LEMMA_PROOFS["AX_psc_ext"] = lambda: []
+
+
+@spec("LSUM_EXT")
+def _lsum_ext_inst(eng, st, name, l1, g1, l2, g2):
+    """Instance of L_lsum_ext for two list objects: equal length and equal gains elementwise => equal partial sums."""
+    S = _LSUM.setdefault(name, z3.Function("LSUM_" + name, _I, _I, _R))
+    q, k = z3.Int(fresh_name("q")), z3.Int(fresh_name("k"))
+    id1, id2 = _list_id(l1), _list_id(l2)
+    ga = to_z3(to_real(eng.call_lambda(st, g1, [l1.get(q)])))
+    gb = to_z3(to_real(eng.call_lambda(st, g2, [l2.get(q)])))
+    n1 = to_z3(l1.length)
+    prem = [n1 == to_z3(l2.length), z3.ForAll([q], z3.Implies(z3.And(0 <= q, q < n1), ga == gb))]
+    concl = z3.ForAll([k], z3.Implies(z3.And(0 <= k, k <= n1), S(id1, k) == S(id2, k)), patterns=[S(id1, k), S(id2, k)])
+    eng.used_lemmas.add("L_lsum_ext")
+    return LemmaInst("L_lsum_ext", prem, concl)
